@@ -219,7 +219,7 @@ def run(args):
         ck.violation(f'cm-colors/{kind}', 'E', {'cases': len(items), 'first_message': msg}, w, {'witness_key': f'{kind}|{trig}'})
         for v in hit: v['witness'] = w
     ck.assume('BOUNDED for the structure clause; the frame clause is proved', 'click, tinycss2 and rich do not write files', 'tinycss2 is the trusted reader for the structural diff',
-              'sheets for which the tool writes no output at all (known finding of C08: unserialisable declaration) have nothing to compare')
+              'sheets for which the tool writes no output at all have nothing to compare (none on the repaired tree: the vendor-hack sheets are written since fix 9f85b12)')
     ck.trust('tinycss2', 'z3 string theory for the name lemma', 'the effect tables of vf/effects.py')
     return ck.finish()
 
